@@ -33,7 +33,7 @@ _counter = 0
 def run(module: str, cfg: str | None = None, *, workers: int | str = "auto", env: dict | None = None,
         timeout: int = 1800, simulate: str | None = None, depth: int | None = None,
         deadlock: bool = False, coverage: bool = False, extra: list[str] | None = None,
-        heap: str = "8g", dfs: bool = False, cwd: Path | None = None) -> TLCResult:
+        heap: str = "8g", dfs: bool = False, cwd: Path | None = None, lib: bool = False) -> TLCResult:
     """Run TLC on spec/<module>.tla with spec/<cfg>. Never raises on a property violation;
     raises MachineryFailure on parse/semantic errors or timeouts."""
     global _counter
@@ -45,6 +45,8 @@ def run(module: str, cfg: str | None = None, *, workers: int | str = "auto", env
     jopts = [f"-Xmx{heap}", "-Xss256m", "-XX:+UseSerialGC", "-XX:-UsePerfData"]   # deep RECURSIVE operators (linear folds over traces)
     if dfs:
         jopts.append("-Dtlc2.tool.queue.IStateQueue=StateDeque")
+    if lib:       # generated wrapper modules live in the scratch directory; the specification itself in spec/
+        jopts.append(f"-DTLA-Library={SPEC}")
     cmd = ["java", *jopts, "-cp", JAR, "tlc2.TLC", "-config", cfg, "-metadir", str(meta),
            "-noGenerateSpecTE", "-workers", str(workers), "-seed", str(seed() or 1)]
     if not deadlock:
